@@ -385,7 +385,11 @@ func (r *renderState) preInline(source []byte, inline *Inline) bool {
 		}
 		return false
 	case HTMLTagKind:
-		// Just descend into children.
+		if r.IgnoreRaw {
+			// Skip the whole tag, including any indentation inside of it.
+			return false
+		}
+		// Otherwise, just descend into children.
 	default:
 		return false
 	}
